@@ -5,6 +5,7 @@ import (
 	"fmt"
 	"math"
 	"reflect"
+	"strings"
 	"unsafe"
 
 	"verif/internal/ref"
@@ -101,6 +102,7 @@ func (g *Gen) fill(t *schema.Type, v reflect.Value) {
 		keys[f.Key] = key
 		unions = append(unions, p)
 	}
+	defer g.couple(t, v)
 	for i := range t.Fields {
 		f := &t.Fields[i]
 		fv := v.FieldByName(f.Name)
@@ -342,6 +344,8 @@ func (g *Gen) ScalarBits(kind string) uint64 {
 		return mask >> 1
 	case 5:
 		return r & 0xFF
+	case 7:
+		return r & 0xF // small numbers: what counts, lengths and enumerations usually hold
 	case 6:
 		g.feat("int:high-bit-set")
 		return (r | 1<<(w-1)) & mask
@@ -354,7 +358,20 @@ var alphabet = []string{" ", "0", "\x00", "\x7f", "\x80", "\xff", "a", "b", "Z",
 // Text returns n bytes drawn from the hostile alphabet (may cut a multi-byte sequence).
 func (g *Gen) Text(n int) string {
 	b := make([]byte, 0, n+4)
-	mode := g.R.Intn(4)
+	mode := g.R.Intn(5)
+	if mode == 4 && n > 1 {
+		// a word followed by a run of blanks or NULs (what a sloppy "drop the filler" step would eat)
+		k := 1 + g.R.Intn(n-1)
+		fill := []byte{' ', 0, ' '}[g.R.Intn(3)]
+		for len(b) < k {
+			b = append(b, byte('a'+g.R.Intn(26)))
+		}
+		for len(b) < n {
+			b = append(b, fill)
+		}
+		g.feat("text:word-then-blank-run")
+		return string(b)
+	}
 	for len(b) < n {
 		switch mode {
 		case 0:
@@ -456,4 +473,89 @@ func nonPad(pad byte) byte {
 		return 'B'
 	}
 	return 'A'
+}
+
+// couple introduces the relations between fields that independent random values never have:
+// an integer field named <X>Len / <X>Length next to a text field <X> is set near len(<X>), and a text
+// field sometimes repeats the value of an earlier text field of the same message.
+func (g *Gen) couple(t *schema.Type, v reflect.Value) {
+	var prevText string
+	havePrev := false
+	for i := range t.Fields {
+		f := &t.Fields[i]
+		fv := v.FieldByName(f.Name)
+		switch {
+		case schema.IsScalar(f.Kind) && f.Kind[0] != 'f':
+			for _, suf := range []string{"Len", "Length"} {
+				if !strings.HasSuffix(f.Name, suf) {
+					continue
+				}
+				tf := v.FieldByName(strings.TrimSuffix(f.Name, suf))
+				if tf.IsValid() && tf.Kind() == reflect.String && g.R.Chance(1, 2) {
+					n := tf.Len() + g.R.Intn(7) - 3
+					if n < 0 {
+						n = 0
+					}
+					SetScalarBits(fv, f.Kind, uint64(n))
+					g.feat("coupled:length-field-near-text-length")
+				}
+			}
+		case f.Kind == "fixstr" || f.Kind == "pstr":
+			if havePrev && g.R.Chance(1, 6) {
+				s := prevText
+				if f.Kind == "fixstr" {
+					if len(s) > f.N {
+						s = s[:f.N]
+					}
+					// stay canonical: no pad byte on the pad side
+					if len(s) > 0 && !g.O.Arbitrary {
+						edge := len(s) - 1
+						if f.Left {
+							edge = 0
+						}
+						if s[edge] == byte(f.Pad) {
+							break
+						}
+					}
+				}
+				if _, isKey := g.keyFields(t)[f.Name]; !isKey {
+					fv.SetString(s)
+					g.feat("coupled:text-repeats-earlier-field")
+				}
+			}
+			prevText, havePrev = fv.String(), true
+		case f.Kind == "struct":
+			// a nested part often carries the same identifier as its parent (same field name): make them equal sometimes
+			st := g.S.Lookup(t.Pkg, f.Type)
+			nv := fv
+			if !f.Value {
+				if fv.IsNil() {
+					break
+				}
+				nv = fv.Elem()
+			}
+			for j := range st.Fields {
+				sf := &st.Fields[j]
+				pv := v.FieldByName(sf.Name)
+				if (sf.Kind == "fixstr" || sf.Kind == "pstr") && pv.IsValid() && pv.Kind() == reflect.String && g.R.Chance(1, 2) {
+					s := pv.String()
+					if sf.Kind == "fixstr" && len(s) > sf.N {
+						s = s[:sf.N]
+					}
+					nv.FieldByName(sf.Name).SetString(s)
+					g.feat("coupled:nested-part-repeats-parent-field-of-same-name")
+				}
+			}
+		}
+	}
+}
+
+func (g *Gen) keyFields(t *schema.Type) map[string]bool {
+	m := map[string]bool{}
+	for _, f := range t.Fields {
+		if f.Kind == "union" {
+			m[f.Key] = true
+		}
+	}
+	return m
 }
